@@ -2,6 +2,7 @@ import Cuke.Lemmas.Sched
 import Cuke.Lemmas.SchedLts
 import Cuke.Props.C06
 import Cuke.Props.C05
+import Cuke.Lemmas.SchedConserve
 /-!
 # C04 — Every supplied scenario runs, nothing else runs, and the run always terminates
 Model: `Cuke.newEntries`, `Cuke.insertInitial`, `Cuke.getBatch`, `Cuke.isFinished` and the idle branch
@@ -189,5 +190,40 @@ theorem lts_exit_only_when_done (c : SCfg) (pre suf : List Label) (sleep : Bool)
   · intro hnb
     rw [hnb] at hfin
     exact (exit_needs_empty_queues _ _ hfin).2
+
+
+/-! ## Whole runs: attempts are conserved
+
+Two ghost logs accompany the replay (`Cuke.SchedCons.runG`): the scenario ids of every entry the runner creates
+(`Features::insert` for a delivered feature, `insert_retried_scenario` for a granted retry) and the scenario ids of
+every attempt whose END was seen. `Clean` = no disagreement of the classes R, Q, K, I. Lemmas/SchedConserve.lean. -/
+
+open Cuke.SchedCons Cuke.SchedRetry in
+/-- **Conservation at every moment of every run**: created ~ (queued ++ handed out ++ running) ++ ended, as
+    multisets of scenario ids — nothing the parser delivered is dropped, nothing is invented, nothing runs twice
+    for one entry. -/
+theorem lts_attempts_conserved (c : SCfg) (ls : List Label) (hc : Clean (accept c ls) = true) :
+    (runG c ls ({}, ([], []))).2.1 ~ scens (ents (accept c ls)) ++ (runG c ls ({}, ([], []))).2.2 := by
+  have hst : (runG c ls ({}, ([], []))).1 = accept c ls := runG_state c ls _
+  have := runG_cinv c ls ({}, ([], [])) cinv_init (by rw [hst]; exact hc)
+  rw [hst] at this
+  exact this.1
+
+open Cuke.SchedCons Cuke.SchedRetry in
+/-- **Every supplied scenario runs, nothing else runs**: when a clean run has nothing queued, handed out or
+    running any more (what `lts_exit_only_when_done` shows at the exit without fail-fast), the attempts that ENDED are
+    exactly the entries that were CREATED — every scenario of every delivered feature (`newEntries_covers`) once,
+    plus one per granted retry; no scenario that was not handed to the runner, none twice for one entry. -/
+theorem lts_all_created_ended (c : SCfg) (ls : List Label) (hc : Clean (accept c ls) = true)
+    (hempty : ents (accept c ls) = []) :
+    (runG c ls ({}, ([], []))).2.1 ~ (runG c ls ({}, ([], []))).2.2 := by
+  have := lts_attempts_conserved c ls hc
+  rw [hempty] at this
+  simpa [scens] using this
+
+/-- non-vacuity: the run with a retried attempt (C05.rlog) — scenario 1 is created twice (delivered, then the
+    granted retry) and ends twice; at its exit nothing is held -/
+example : Cuke.SchedCons.Clean (accept C05.rcfg C05.rlog) = true ∧ Cuke.SchedRetry.ents (accept C05.rcfg C05.rlog) = [] ∧
+    (Cuke.SchedCons.runG C05.rcfg C05.rlog ({}, ([], []))).2 = ([1, 1], [1, 1]) := by decide +kernel
 
 end Cuke.C04
